@@ -20,7 +20,7 @@ DELTA = 0.005            # resolution of "no systematic offset" with exploration
 DELTA_KEPT = 0.03        # documented pseudo-importance bias when exploration is kept
 P_T = 5e-10              # one-sided level of the t bound
 P_CHI = 1e-9
-RULE = ('ensembles of N independent seeds (quick 16, thorough 96) per (problem, configuration): truncated Gaussian, '
+RULE = ('ensembles of N independent seeds (quick 40, thorough 96; volume ensembles 24 / 48) per (problem, configuration): truncated Gaussian, '
         'correlated Gaussian, separated two-mode mixture, half-space -inf plateau with log ramp, wrap-around peak '
         'declared periodic; n_live 300-500, n_eff target 2000-3000, networks 0/1, sampler pool, exploration discarded '
         'or kept. Tests per ensemble: (i) |mean(log_z - log Z_true)| < delta + t_{N-1}(1-5e-10) * max(se, median '
@@ -31,7 +31,7 @@ RULE = ('ensembles of N independent seeds (quick 16, thorough 96) per (problem, 
         'mean(sum_i exp(shell_log_v) - 1) must vanish within the inverse-sampling bias allowance + t*se. '
         'Non-trivial = ensembles in which every member converged (run() returned True); evaluations = runs.')
 ASSUMPTIONS = ['false-alarm probability <= ~1e-8 per invocation provided the true offset is below delta',
-               'power: quick detects systematic offsets >~ 6 %, thorough >~ 1.5 % (DESIGN C04)']
+               'power: quick (N=40, t bound 8.3) detects systematic offsets >~ 3 %, thorough (N=96) >~ 1.5 %']
 
 
 def _problems(tier):
@@ -54,6 +54,10 @@ def _problems(tier):
     P.append(('plateau-net-discard', plat, dict(base, n_live=400, n_networks=1, n_eff=2000, discard_exploration=True)))
     P.append(('periodic-discard', per, dict(base, n_live=400, n_networks=0, n_eff=3000, discard_exploration=True,
                                             periodic=[0])))
+    # mass against the prior edge + sampler pool: the pool path merges the workers' proposal/rejection counters of both
+    # levels, and the cube-clipped outer union is where a forgotten counter shows up as a biased volume
+    P.append(('plateau-spool-discard', plat, dict(base, n_live=400, n_networks=0, n_eff=2000, discard_exploration=True,
+                                                  pool='s2')))
     if tier == 'thorough':
         P.append(('gauss2-kept', g2, dict(base, n_live=400, n_networks=0, n_eff=3000, discard_exploration=False)))
         P.append(('mixture3-discard', mix, dict(base, n_live=500, n_networks=0, n_eff=3000, discard_exploration=True)))
@@ -74,8 +78,8 @@ def _problems(tier):
 
 
 def gen_cases(tier, seed):
-    N = 16 if tier == 'quick' else 96
-    NV = 16 if tier == 'quick' else 48
+    N = 40 if tier == 'quick' else 96
+    NV = 24 if tier == 'quick' else 48
     P, V = _problems(tier)
     cases = []
     for name, pspec, cfg in P:
